@@ -16,6 +16,7 @@ CONTRACT_MODULES = [
     "contracts.purity",
     "contracts.mbxml_num",
     "contracts.ipsc",
+    "contracts.hstrp_handler",
 ]
 
 TRUSTED_BASE = [
@@ -101,5 +102,11 @@ PROPS = {
         explanation="contract HyteraIPSC.frame + bounded kaitai.assumed_contract",
         assumptions=["assumed contract of the third-party kaitai parser IpSiteConnectProtocol (validated natively each run)"],
         bounded_parts=[dict(what="assumed contract of the kaitai parser", bound="400 seeded frames per run", contract="kaitai.assumed_contract")],
+    ),
+    "C17": dict(
+        level_text="Inductive proof over datagram histories of any length: ONE datagram delivered to the handler in an ARBITRARY state within the invariant (symbolic connected flag, symbolic own sequence number < 65535, another radio already in the registry), with HSTRP.from_bytes replaced by its over-approximating contract (raises any of the parser's exception classes | None | an HSTRP with six symbolic type flags, symbolic 16-bit sn and payload none / opaque HDAP / RRS with literal opcode and radio): never raises; undecodable datagrams are not answered and change nothing; connect / close / data get exactly one ack with the same sn, no payload, to the sender; anything with the ack bit is never acknowledged; heartbeat echoed iff connected; connected flag follows connect/close; registry entry of the addressed radio updated, of the other radio untouched; one RRS success answer with 16-bit sn per registration request. Init (fresh handler) satisfies the invariant by construction.",
+        level_note="Radio addresses: a pool of two literal radios (the registry key is a formatted string). The parser over-approximation is discharged only for datagram lengths 0, 1, 5, 6 (HSTRP.from_bytes.over_approximation); for longer datagrams it is an assumed (type-level) contract - the parser's own precision is C12's business. Native replay feeds real octets through the real parser. Timing (periodic_maintenance) is out of scope.",
+        explanation="contract HSTRPDatagramProtocol.datagram_received (both handler classes)",
+        assumptions=["HSTRP.from_bytes over-approximation is assumed for datagrams longer than 6 octets (returns None, raises, or yields an HSTRP with boolean flags / 16-bit sn / HDAP-or-None payload)"],
     ),
 }
